@@ -28,6 +28,8 @@
 #define KLVARR 7      /* T_LVALUE -> local variable holding an array / string / buffer */
 #define KLVSTR 8
 #define KLVBUF 9
+#define KARRM 10      /* array from the real allocator (malloc'd), concrete length LENKi, ref 1 */
+#define KLVSELF 11    /* T_LVALUE -> local variable holding the SAME array as operand 0 (x op= x); the array then has ref 2 */
 #define NCODE 12
 #define IN_FIELDS(S,A) A(int64_t, num, 3) A(uint64_t, realbits, 3) A(unsigned, len, 3) A(unsigned char, bytes, 3 * 8) A(int, ref, 3) \
   A(int64_t, elem, 3 * 4) A(int, dest, 3) A(unsigned char, code, NCODE) A(int64_t, local, 3) A(int64_t, global, 3) A(int, limit, 4)
@@ -77,6 +79,12 @@ static void mk_value (int i, int kind)
 #endif
 #ifdef LENK2
   if (i == 2) { __CPROVER_assume (n == LENK2); n = LENK2; }
+#endif
+#ifdef ORACLE_LIMIT
+  /* the pre-state respects the limits (inductive step) */
+  if (kind == KARR || kind == KLVARR || kind == KARRM) __CPROVER_assume ((int) n <= IN.limit[0]);
+  if (kind == KBUF || kind == KLVBUF) __CPROVER_assume ((int) n <= IN.limit[1]);
+  if (kind == KSTR || kind == KSTRSH || kind == KLVSTR) __CPROVER_assume ((int) n <= IN.limit[2]);
 #endif
   switch (kind)
     {
@@ -142,6 +150,23 @@ static void mk_value (int i, int kind)
         b->size = n; b->ref = (unsigned short) IN.ref[i];
         gbuf[i] = b;
         sp++; sp->type = T_BUFFER; sp->subtype = 0; sp->u.buf = b;
+        break;
+      }
+    case KARRM:
+      {
+        array_t *a = allocate_empty_array (n);
+        for (k = 0; k < CAP; k++) if (k < n) { a->item[k].type = T_NUMBER; a->item[k].subtype = 0; a->item[k].u.number = IN.elem[i * 4 + k]; }
+        garr[i] = a; gkind[i] = KARR;
+        sp++; sp->type = T_ARRAY; sp->subtype = 0; sp->u.arr = a;
+        break;
+      }
+    case KLVSELF:
+      {
+        array_t *a = garr[0];
+        a->ref++;
+        (fp + i)->type = T_ARRAY; (fp + i)->subtype = 0; (fp + i)->u.arr = a;
+        lv_slot[i] = i; garr[i] = a;
+        sp++; sp->type = T_LVALUE; sp->subtype = 0; sp->u.lvalue = fp + i;
         break;
       }
     case KLVARR: mk_lvalue_to_local (i, KARR); break;
@@ -220,7 +245,6 @@ void harness (void)
   CONFIG_INT (__MAX_STRING_LENGTH__) = 100; CONFIG_INT (__MAX_MAPPING_SIZE__) = 100; CONFIG_INT (__MAX_BITFIELD_BITS__) = 64;
 #ifdef ORACLE_LIMIT
   __CPROVER_assume (IN.limit[0] >= 1 && IN.limit[0] <= 2 * CAP && IN.limit[1] >= 1 && IN.limit[1] <= 2 * CAP && IN.limit[2] >= 1 && IN.limit[2] <= 2 * CAP);
-  CONFIG_INT (__MAX_ARRAY_SIZE__) = IN.limit[0]; CONFIG_INT (__MAX_BUFFER_SIZE__) = IN.limit[1]; CONFIG_INT (__MAX_STRING_LENGTH__) = IN.limit[2];
 #endif
   /* program: byte 0 = the opcode under test, operand bytes symbolic */
   CODE[0] = (char) OPC;
@@ -247,6 +271,10 @@ void harness (void)
   csp->num_local_variables = 3;
   sp_base = sp;
   for (i = 0; i < NOPS; i++) mk_value (i, kind_of (i));
+#ifdef ORACLE_LIMIT
+  /* the symbolic limits apply from here (the operands, built above, respect them by assumption) */
+  CONFIG_INT (__MAX_ARRAY_SIZE__) = IN.limit[0]; CONFIG_INT (__MAX_BUFFER_SIZE__) = IN.limit[1]; CONFIG_INT (__MAX_STRING_LENGTH__) = IN.limit[2];
+#endif
   eval_cost = NSTEPS + 1;
   eval_instruction (CODE);
   /* opcodes that leave eval_instruction (returns) arrive here */
